@@ -25,7 +25,9 @@ LEVEL_TEXT = (
     "objects are executed by the real code in one process; every call's result is digested (names, value bytes, index, dropped rows). "
     "The same calls are then executed in a shuffled order, each on freshly rebuilt objects, in a fresh interpreter with a different "
     "hash seed: every digest must be bit-identical. Inputs (frames, context lists/arrays, formula reprs) must be deep-equal before "
-    "and after, and each pool spec must behave at the end as it did at first."
+    "and after, and each pool spec must behave at the end as it did at first. Every spec of the history is also pickled in "
+    "process A and restored in process B, where replaying it, looking its terms up through equal term objects and subsetting it "
+    "must answer exactly as the original does in A."
 )
 LEVEL_NOTE = "trusts: sha256 over float64 bytes; subprocess isolation; the symbolic history description being sufficient to rebuild every object"
 RULE = (
@@ -59,7 +61,7 @@ def gen_formula(rng):
     return s
 
 
-def gen_frame(rng, n, nulls):
+def gen_frame(rng, n, nulls, plain=False):
     def nul(v):
         return None if nulls and rng.random() < 0.1 else v
 
@@ -76,11 +78,12 @@ def gen_frame(rng, n, nulls):
         ["B", {"kind": "cat", "categories": ["k", "l"], "values": [nul(v) for v in cat(["k", "l"])]}],
         ["S", {"kind": "text", "dtype": "object", "values": cat(["s1", "s2", "s3"])}],
         ["G", {"kind": "cat", "categories": ["g2", "g1"], "values": cat(["g1", "g2"])}],
-    ], "index": None}
+    ] + ([["b_m", {"kind": "num", "dtype": "float64", "values": [float(i) for i in range(n)]}]] if plain else []),  # what `b m` sanitizes to
+        "index": None}
 
 
 def gen_case(rng: random.Random, tier: str) -> dict:
-    frames = [gen_frame(rng, rng.choice([10, 14, 20]), rng.random() < 0.4) for _ in range(rng.randint(2, 3))]
+    frames = [gen_frame(rng, rng.choice([10, 14, 20]), rng.random() < 0.4, rng.random() < 0.4) for _ in range(rng.randint(2, 3))]
     formulas = [gen_formula(rng) for _ in range(rng.randint(3, 5))]
     ops, nspec = [], 0
     for _ in range(rng.randint(8, 30)):
@@ -204,6 +207,38 @@ def run_history(hist, mode):
     return digests, pool
 
 
+def probe_spec(spec, frame, ctx):
+    """What a user can ask of a spec: replay it, look its terms up through equal (newly built) term objects, subset it."""
+    from formulaic.parser.types import Term
+
+    res = {}
+    try:
+        drop: set = set()
+        with quiet():
+            res["replay"] = result_digest(spec.get_model_matrix(frame, drop_rows=drop, context=ctx), drop)
+    except Exception as e:  # noqa: BLE001
+        res["replay"] = f"EXC:{type(e).__name__}"
+    leaves = list(spec._flatten()) if hasattr(spec, "_flatten") else [spec]
+    for j, leaf in enumerate(leaves):
+        try:
+            fresh = [Term(t.factors) for t in leaf.formula]
+            if leaf.structure:
+                res[f"lookup{j}"] = [list(leaf.term_indices[t]) for t in fresh]
+                res[f"slices{j}"] = [repr(leaf.get_slice(t)) for t in fresh]
+                res[f"subset{j}"] = list(leaf.subset(fresh[:2]).column_names)
+            else:
+                res[f"member{j}"] = [t in set(leaf.formula) for t in fresh]
+        except Exception as e:  # noqa: BLE001
+            res[f"meta{j}"] = f"EXC:{type(e).__name__}:{str(e)[:80]}"
+    return res
+
+
+def probe_pickles(payload):
+    """Process B: restore the specs pickled by process A and ask the same questions of them."""
+    pool = Pool(payload, "fresh")
+    return {k: probe_spec(pickle.loads(bytes.fromhex(blob)), pool.frame(0), pool.context()) for k, blob in payload["_pickles"].items()}
+
+
 def judge(case) -> Outcome:
     out = Outcome()
     kinds = tuple(o["op"] for o in case["ops"])
@@ -242,14 +277,29 @@ def judge(case) -> Outcome:
     env = dict(os.environ)
     env["PYTHONHASHSEED"] = str(case["hashseed"])
     env["PYTHONPATH"] = VERIF_DIR + os.pathsep + env.get("PYTHONPATH", "")
-    code = ("import sys, json; from fxmon import use_repo; use_repo(); from fxmon.checks import c18; "
-            "d, _ = c18.run_history(json.load(sys.stdin), 'fresh'); print('DIGESTS' + json.dumps(d))")
+    # every spec of the history also crosses the process boundary as a pickle
+    probesA, pickles = {}, {}
+    for k, sp in sorted(pool.specs.items()):
+        if sp is None:
+            continue
+        try:
+            pickles[str(k)] = pickle.dumps(sp).hex()
+        except Exception as e:  # noqa: BLE001
+            out.fail("c18.spec_not_picklable", f"spec {k}: {type(e).__name__}: {str(e)[:150]}")
+            continue
+        probesA[str(k)] = probe_spec(sp, pool.frame(0), pool.context())
+    code = ("import sys, json; from fxmon import use_repo; use_repo(); from fxmon.checks import c18; h = json.load(sys.stdin); "
+            "d, _ = c18.run_history(h, 'fresh'); print('DIGESTS' + json.dumps(d)); print('PROBES' + json.dumps(c18.probe_pickles(h)))")
     try:
-        p = subprocess.run([sys.executable, "-c", code], input=json.dumps(case), capture_output=True, text=True, env=env, timeout=300, cwd=VERIF_DIR)
+        p = subprocess.run([sys.executable, "-c", code], input=json.dumps(dict(case, _pickles=pickles)), capture_output=True, text=True, env=env, timeout=300, cwd=VERIF_DIR)
         line = next((ln for ln in p.stdout.splitlines() if ln.startswith("DIGESTS")), None)
         if line is None:
             raise RuntimeError(f"no digests from process B: {p.stderr[-300:]}")
         dB = {int(k): v for k, v in json.loads(line[7:]).items()}
+        line = next((ln for ln in p.stdout.splitlines() if ln.startswith("PROBES")), None)
+        if line is None:
+            raise RuntimeError(f"no probes from process B: {p.stderr[-300:]}")
+        probesB = json.loads(line[6:])
     except subprocess.TimeoutExpired:
         out.decided = False
         return out
@@ -259,6 +309,14 @@ def judge(case) -> Outcome:
             what = case["formulas"][op["f"]] if "f" in op else f"spec {op.get('spec')}"
             out.fail("c18.history_dependent", f"step {i} {op} ({what}): digest on shared objects {dA[i][:40]} != digest on fresh objects in a fresh interpreter (hash seed {case['hashseed']}) {str(dB.get(i))[:40]}")
             break
+    for k in sorted(probesA):
+        a, b = json.loads(json.dumps(probesA[k])), probesB.get(k)
+        if a != b:
+            diff = sorted(q for q in set(a) | set(b or {}) if a.get(q) != (b or {}).get(q))
+            out.fail("c18.restored_spec_differs_in_other_process",
+                     f"spec {k} pickled here and restored under hash seed {case['hashseed']} answers differently: {[(q, a.get(q), (b or {}).get(q)) for q in diff][:2]}")
+            break
+        out.see("pickled_specs_compared")
     out.see("calls_compared", len(dA))
     out.see("histories_with_exceptions", int(any(str(v).startswith("EXC") for v in dA.values())))
     return out
